@@ -253,7 +253,7 @@ func RunCrash(s *Script, ks []int, moveOn int, twin *Twin) (*CrashResult, error)
 			if best.Height < h {
 				res = "err"
 			}
-			r.emit("P %d %s", s.Gen.BlockID(r.N.Best[h]), res)
+			r.emit("P %d %s", s.Gen.CfBlockID(r.N.Best[h]), res)
 			at.CaughtUp++
 		}
 		if best.Hash == *r.N.Tip().Hash() {
